@@ -70,6 +70,7 @@ var stateNames = [...]string{"runnable", "blocked", "sleeping", "quiesce", "done
 
 // Actor is one controlled goroutine.
 type Actor struct {
+	selSend    uintptr // channel key of the send case of the select this actor is blocked in (0: none)
 	ID         int
 	Site       string
 	Lib        bool // spawned by instrumented library code
@@ -571,6 +572,23 @@ func (k *Kernel) Notify(key uintptr) {
 		if a.st == stBlocked {
 			for _, x := range a.keys {
 				if x == key {
+					a.st = stRunnable
+					break
+				}
+			}
+		}
+	}
+}
+
+// wakeSelSenders re-enables the actors blocked in a select whose send case is on one of the given channels:
+// a receiver is about to park there, which makes that case ready (unbuffered rendezvous).
+//
+//go:norace
+func (k *Kernel) wakeSelSenders(keys ...uintptr) {
+	for _, a := range k.actors {
+		if a.st == stBlocked && a.selSend != 0 {
+			for _, x := range keys {
+				if x == a.selSend {
 					a.st = stRunnable
 					break
 				}
